@@ -151,12 +151,13 @@ def work_seq(case):
             rs = list(obs.extractor(kind)(io.BytesIO(data), path))
             d = _digest_results(rs, f"s{j}r")
         except Exception as e:
-            rs, d = [], {f"$exc#s{j}r0.$exc": type(e).__name__}
+            rs, d = None, {f"$exc#s{j}r0.$exc": type(e).__name__}
         out["digest"].update(d)
         for entry in alive[-3:]:            # the most recent ones after every step (says which step did it); all of them at the end
             _recheck(entry, out["problems"], label)
             rechecks += 1
-        alive.append([label, _fmt_of(kind, recipe), rs, d, f"s{j}r"])
+        if rs is not None:          # a step that failed handed out no result that could change later
+            alive.append([label, _fmt_of(kind, recipe), rs, d, f"s{j}r"])
         if len(firsts) < 40:            # every step is repeated at the end (the documents are small)
             firsts.append((kind, data, path, d, j, _fmt_of(kind, recipe)))
     for kind, data, path, d0, j, fmt in firsts:
